@@ -10,6 +10,7 @@ package ext
 //@   modifies uint8 at b
 //@   ensures be16(mem(b), lo(b)) == v && isByte(b[0]) && isByte(b[1])
 //@   ensures forall j :: (j < lo(b) || j >= lo(b) + 2) ==> mem(b)[j] == old(mem(b))[j]
+//@   noalloc[C17]
 
 //@ func (bigEndian).PutUint32
 //@   safety[C08]
@@ -17,6 +18,7 @@ package ext
 //@   modifies uint8 at b
 //@   ensures be32(mem(b), lo(b)) == v
 //@   ensures forall j :: (j < lo(b) || j >= lo(b) + 4) ==> mem(b)[j] == old(mem(b))[j]
+//@   noalloc[C17]
 
 //@ func (bigEndian).PutUint64
 //@   safety[C08]
@@ -24,3 +26,4 @@ package ext
 //@   modifies uint8 at b
 //@   ensures be64(mem(b), lo(b)) == v
 //@   ensures forall j :: (j < lo(b) || j >= lo(b) + 8) ==> mem(b)[j] == old(mem(b))[j]
+//@   noalloc[C17]
